@@ -42,3 +42,16 @@ CLAIMED["C14"] = {
     "note": TB + " User code is modelled as returning any value of its declared type; generated impls are analysed compositionally "
                  "(a call to another generated impl is summarised by its declared outcomes, and that impl is an entry itself).",
 }
+
+CLAIMED["C13"] = {
+    "engine": "E2 taint-with-sanitiser + framing typestate over interprocedural MIR",
+    "technique": "taint analysis with a proved LF sanitiser (search predicate evaluated abstractly) and a framing typestate over the interprocedural MIR CFG",
+    "text": ("Decides (S) that on every path of every public Writer method taking text, the bytes handed to the sink are the LF-free part "
+             "before an LF found by a search proved to test byte==0x0A, the text on the not-found edge, an LF-free constant, or CR LF "
+             "directly after such a part, that the scan resumes one byte after the LF and that the whole text is consumed before Ok; "
+             "(F) that after user output every path consults Writer::is_dirty and writes CR LF exactly on the true edge before any "
+             "other sink write or successful return; (W) that Cli::write performs no editor mutation. Not decided: the value computed "
+             "by is_dirty (dirty/last_bytes tracking) and the redisplay of the line (C06)."),
+    "design_ref": "DESIGN.md §4 C13",
+    "note": TB + " The sanitiser idiom recognised is position-based scanning; another correct idiom makes the check fail closed.",
+}
